@@ -202,16 +202,26 @@ func VerifHarness_C02_x509_resumed() {
 	cfg := &Config{RootCAs: roots, Time: func() time.Time { return now }, Rand: verifRand0{}, ServerName: "a.b"}
 	cfg.InsecureSkipVerify = verifSplitInt("skipVerify", 0, 1) == 1
 	c := verifBareConn(cfg, true)
+	c.vers = VersionTLCP
 	var certs []*x509.Certificate
 	for i := 0; i < n; i++ {
 		certs = append(certs, newParsed([]byte{byte(i)}))
 	}
-	err := c.verifySessionCertificates(certs)
+	// driven through the real processServerHello (abbreviated handshake: the server echoes the offered id): the
+	// session was created at ANOTHER instant than the configured "now"
+	sid := verifNondetBytes("sid", 32)
+	sess := &SessionState{sessionId: sid, vers: VersionTLCP, cipherSuite: ECC_SM4_GCM_SM3, masterSecret: verifNondetBytes("master", 48),
+		createdAt: now.Add(time.Duration(1+verifNondetU32("age"))), peerCertificates: certs}
+	hs := &clientHandshakeState{c: c, session: sess,
+		hello:       &clientHelloMsg{vers: VersionTLCP, sessionId: sid, cipherSuites: []uint16{ECC_SM4_GCM_SM3}},
+		serverHello: &serverHelloMsg{vers: VersionTLCP, sessionId: sid, cipherSuite: ECC_SM4_GCM_SM3}}
+	resumed, err := hs.processServerHello()
 	if err != nil {
 		verifReach("rejected")
 		return
 	}
 	verifReach("accepted")
+	verifAssert("C02.x509.resumed.isResumed", resumed)
 	if cfg.InsecureSkipVerify {
 		return
 	}
